@@ -43,10 +43,22 @@ class AngularModel:
         self.f_get = repo.method("AngularGrid", "_get_degree_and_size")
         self.f_load = repo.method("AngularGrid", "_load_precomputed_angular_grid")
         self.chains = {}
-        for name, f, wanted in (("__init__", self.f_init, ("cache_dict",)),
-                                ("_get_degree_and_size", self.f_get, ("dict_degrees", "dict_npoints")),
-                                ("_load_precomputed_angular_grid", self.f_load,
-                                 ("dict_degrees", "dict_npoints", "file_path"))):
+        self.var = {}   # chain name -> role -> local variable bound by the dispatch
+        legacy = {"degrees": "dict_degrees", "npoints": "dict_npoints", "package": "file_path", "cache": "cache_dict"}
+
+        def role_of(v):
+            if isinstance(v, ast.Name) and v.id.endswith("_DEGREES"):
+                return "degrees"
+            if isinstance(v, ast.Name) and v.id.endswith("_NPOINTS"):
+                return "npoints"
+            if isinstance(v, ast.Name) and v.id.endswith("_CACHE"):
+                return "cache"
+            if isinstance(v, ast.Constant) and isinstance(v.value, str) and "." in v.value:
+                return "package"
+            return None
+        for name, f, wanted in (("__init__", self.f_init, ("cache",)),
+                                ("_get_degree_and_size", self.f_get, ("degrees", "npoints")),
+                                ("_load_precomputed_angular_grid", self.f_load, ("degrees", "npoints", "package"))):
             d = e4.string_dispatch(f.node.body, "method")
             if d is None:
                 raise AnalysisError(f"unrecognised idiom: no `method == \"...\"` dispatch chain in AngularGrid.{name}")
@@ -54,14 +66,25 @@ class AngularModel:
             if not (else_body and isinstance(else_body[-1], ast.Raise)):
                 raise AnalysisError(f"dispatch chain in AngularGrid.{name} does not end in raise")
             table = {}
+            self.var[name] = {}
             for key, body in chain:
                 asg = e4.branch_assignments(body)
-                miss = [w for w in wanted if w not in asg]
+                roles = {}
+                for var_, val in asg.items():
+                    r = role_of(val)
+                    if r is not None:
+                        if r in roles:
+                            raise AnalysisError(f"dispatch branch {key!r} of AngularGrid.{name} assigns two {r} values")
+                        roles[r] = (var_, val)
+                miss = [w for w in wanted if w not in roles]
                 if miss:
                     raise AnalysisError(f"dispatch branch {key!r} of AngularGrid.{name} does not assign {miss}")
                 if key in table:
                     raise AnalysisError(f"duplicate dispatch key {key!r} in AngularGrid.{name}")
-                table[key] = {w: asg[w] for w in wanted}
+                table[key] = {legacy[w]: roles[w][1] for w in wanted}
+                for w in wanted:
+                    if self.var[name].setdefault(w, roles[w][0]) != roles[w][0]:
+                        raise AnalysisError(f"dispatch branches of AngularGrid.{name} bind the {w} to different names")
             self.chains[name] = (table, node)
         # tables
         self.tables = {}
@@ -71,26 +94,50 @@ class AngularModel:
                     self.tables[tname] = e4.fold(node, {}, mi.globals)
                 except e4.NotConstant as e:
                     raise AnalysisError(f"table angular.{tname} is not a literal table ({e})") from e
-        # file-name template
+        # file-name template: the f-string naming an .npz file
         self.template = None
         for s in ast.walk(self.f_load.node):
-            if isinstance(s, ast.Assign) and isinstance(s.value, ast.JoinedStr) and \
-                    any(isinstance(t, ast.Name) for t in s.targets):
-                t = e4.fstring_template(s.value)
+            if isinstance(s, ast.JoinedStr):
+                t = e4.fstring_template(s)
                 if t and any(p[0] == "lit" and p[1].endswith(".npz") for p in t):
                     self.template = t
-                    self.template_var = s.targets[0].id
         if self.template is None:
             raise AnalysisError("unrecognised idiom: no f-string '*.npz' file name in the loader")
-        # members read by the loader: data["..."]
-        self.members_read = sorted({n.slice.value for n in ast.walk(self.f_load.node)
-                                    if isinstance(n, ast.Subscript) and isinstance(n.slice, ast.Constant)
-                                    and isinstance(n.slice.value, str) and norm(n.value) == "data"})
+        # the archive object: a name bound to np.load(...) by assignment or `with ... as`
+        arch = set()
+        for n in ast.walk(self.f_load.node):
+            if isinstance(n, ast.Assign) and isinstance(n.value, ast.Call) and norm(n.value.func) in ("np.load", "numpy.load") \
+                    and isinstance(n.targets[0], ast.Name):
+                arch.add(n.targets[0].id)
+            if isinstance(n, ast.With):
+                for it in n.items:
+                    if isinstance(it.context_expr, ast.Call) and norm(it.context_expr.func) in ("np.load", "numpy.load") \
+                            and isinstance(it.optional_vars, ast.Name):
+                        arch.add(it.optional_vars.id)
+        if not arch:
+            raise AnalysisError("unrecognised idiom: the loader does not bind the result of np.load(...) to a name")
+        # members read by the loader: archive["..."]
+        reads = [n for n in ast.walk(self.f_load.node)
+                 if isinstance(n, ast.Subscript) and isinstance(n.slice, ast.Constant)
+                 and isinstance(n.slice.value, str) and norm(n.value) in arch]
+        self.members_read = sorted({n.slice.value for n in reads})
         if "points" not in self.members_read or "weights" not in self.members_read:
             raise AnalysisError(f"loader reads members {self.members_read}; expected points and weights")
-        # single-weight idiom present?
+        # single-weight idiom present?  `len(<the weights member>) == 1`, the member possibly through a local
+        wnames = {f"{a_}['weights']" for a_ in arch}
+        for n in ast.walk(self.f_load.node):
+            if isinstance(n, ast.Assign):
+                tg, vl = n.targets[0], n.value
+                if isinstance(tg, ast.Name) and norm(vl) in wnames:
+                    wnames.add(tg.id)
+                if isinstance(tg, ast.Tuple) and isinstance(vl, ast.Tuple) and len(tg.elts) == len(vl.elts):
+                    for t_, v_ in zip(tg.elts, vl.elts):
+                        if isinstance(t_, ast.Name) and norm(v_) in wnames:
+                            wnames.add(t_.id)
         self.single_weight_idiom = any(
-            isinstance(n, ast.Compare) and "len(data['weights'])" in norm(n) and norm(n.comparators[0]) == "1"
+            isinstance(n, ast.Compare) and len(n.ops) == 1 and isinstance(n.ops[0], ast.Eq)
+            and norm(n.comparators[0]) == "1" and isinstance(n.left, ast.Call) and norm(n.left.func) == "len"
+            and n.left.args and norm(n.left.args[0]) in wnames
             for n in ast.walk(self.f_load.node))
 
     def methods(self):
@@ -175,9 +222,12 @@ def rule_dispatch(rep, repo, prefix="R2.", model=None):
         raise AnalysisError("unrecognised idiom: AngularGrid.__init__ does not call _get_degree_and_size at top level")
     bad = False
     for n in ast.walk(f.node):
-        if isinstance(n, ast.Subscript) and norm(n.value) == "cache_dict" or \
-                (isinstance(n, ast.Compare) and any(norm(c) == "cache_dict" for c in n.comparators)):
-            keyexpr = norm(n.slice) if isinstance(n, ast.Subscript) else norm(n.left)
+        cvar = m.var["__init__"]["cache"]
+        get_call = isinstance(n, ast.Call) and isinstance(n.func, ast.Attribute) and norm(n.func.value) == cvar and \
+            n.func.attr in ("get", "pop", "setdefault") and n.args
+        if isinstance(n, ast.Subscript) and norm(n.value) == cvar or get_call or \
+                (isinstance(n, ast.Compare) and any(norm(c) == cvar for c in n.comparators)):
+            keyexpr = norm(n.slice) if isinstance(n, ast.Subscript) else norm(n.args[0]) if get_call else norm(n.left)
             if n.lineno < resolved_line or keyexpr != resolved_names[0]:
                 bad = True
                 rep.violation(prefix + "cache-key-resolved", "angular.AngularGrid.__init__", keyexpr,
